@@ -3,27 +3,26 @@
    _select_graphic_rendition, _create_style_string, ansi_escape and the
    template interpolation `template[escape v]`.  Definitions only.
 
-   [cfg] selects between the code as it stands in /repo and the code after
-   the proposed repairs in /verif/fixes (C18-*.patch); the harness determines
-   which one /repo currently is by probing and the correspondence run then
-   validates the whole model under that setting.  Theorems are stated per
-   setting: full strength for the repaired code, `_refuted` for the code as it
-   stands. *)
+   [cfg] parametrises the six places where /repo was repaired (the 'fix:'
+   commits 86103a9, baf43a1, afcdc3a, 8fdddd4, 74c3a15, 7fe5e6f).  [cfg_now]
+   is the code that is in /repo now and the only setting [run_C18] and the
+   headline theorems use; [cfg_pinned] is the pinned snapshot, kept only for
+   the `_pinned_refuted` theorems that document what was wrong. *)
 From Coq Require Import ZArith List Bool.
 From PTK Require Import Lib.Sx Lib.Py Gen.C18_Tables Model.C18_Fragments.
 Import ListNotations.
 Open Scope Z_scope.
 
 Record cfg := mkcfg {
-  cfg_esc_c1 : bool;        (* ansi_escape also neutralises \x9b \x01 \x02   (fixes/C18-ansi-escape-c1.patch) *)
-  cfg_ascii_digits : bool;  (* CSI parameters: ASCII digit test, bounded int (fixes/C18-ansi-csi-digits.patch) *)
-  cfg_html_apos : bool;     (* html_escape also escapes '                    (fixes/C18-html-escape-apos.patch) *)
-  cfg_html_xmlsafe : bool;  (* html_escape replaces characters XML cannot carry by '?' (fixes/C18-html-escape-xmlchars.patch) *)
-  cfg_zw_loop : bool;       (* after \002 the coroutine returns to the top of its loop (fixes/C18-ansi-zero-width-adjacent.patch) *)
-  cfg_attr_isspace : bool   (* HTML fg/bg guard rejects every str.isspace character (fixes/C18-html-attr-whitespace.patch) *)
+  cfg_esc_c1 : bool;        (* ansi_escape also neutralises \x9b \x01 \x02   (baf43a1) *)
+  cfg_ascii_digits : bool;  (* CSI parameters: ASCII digit test, bounded int (86103a9) *)
+  cfg_html_apos : bool;     (* html_escape also escapes '                    (74c3a15) *)
+  cfg_html_xmlsafe : bool;  (* html_escape replaces characters XML cannot carry by '?' (7fe5e6f) *)
+  cfg_zw_loop : bool;       (* after \002 the coroutine returns to the top of its loop (afcdc3a) *)
+  cfg_attr_isspace : bool   (* HTML fg/bg guard rejects every str.isspace character (8fdddd4) *)
 }.
-Definition cfg_as_coded : cfg := mkcfg false false false false false false.
-Definition cfg_repaired : cfg := mkcfg true true true true true true.
+Definition cfg_pinned : cfg := mkcfg false false false false false false.
+Definition cfg_now : cfg := mkcfg true true true true true true.
 
 Inductive res (T : Type) : Type :=
 | Ok (x : T)
